@@ -220,6 +220,34 @@ def upgradeChecks (sel : Option Nat) : Checks :=
   | none => []
   | some n => [(false, s!"C04: after the process death the next launch, a launch of another release, selected patch {n} of the release whose process died")]
 
+/-- The contents under which patch `n` counts as "previously verified" for the launch after a death or after an
+    I/O error: its file before the interrupted launch (when that was a readable state of this release recording
+    `n`), or what an update of the launch decodes its download to, with the advertised hash. -/
+def verifiedContents (cfg : Config) (base : Option Bytes) (pre : View) (settledPre : Bool) (ops : List Op) (n : Nat) : List Bytes :=
+  (if settledPre && (slotNums pre).contains n then (pre.fileOf n).toList else []) ++
+  ops.filterMap fun op =>
+    match op with
+    | .update _ sc =>
+      (match sc.resp.bind (·.patch), sc.dl, base with
+       | some o, some stream, some b =>
+         if o.number = n then
+           (match bipatchDecode stream b with
+            | .ok out => if checkHash out o.hash then some out else none
+            | .error _ => none)
+         else none
+       | _, _, _ => none)
+    | _ => none
+
+/-- … and the selected file is one of them, byte for byte (the install of a verified file puts exactly that file in
+    place: `updateCore_install_spec`; no theorem covers this clause for a FAULTED install, where the model leaves
+    `patches/` arbitrary — it is judged on the real library's runs only). -/
+def contentChecks (verified : Nat → List Bytes) (after : View) (sel : Option Nat) : Checks :=
+  match sel with
+  | none => []
+  | some n =>
+    [ ((match after.fileOf n with | some b => (verified n).contains b | none => false),
+        s!"C04: the patch selected afterwards ({n}) is a file that was never verified: neither its content before the interrupted launch nor what an update of that launch verified") ]
+
 /-- The patch whose launch is in progress while `op` runs: the booting marker the call finds —
     except for a launch start (which begins a launch) and a success report (which ends it well). -/
 def inProgressAt (w : World) (op : Op) : Option Nat :=
